@@ -101,6 +101,13 @@ class ElabPass:
         `elaborate_module_base` instead.
         """
 
+        # Check whether a prior elaboration of this module failed part-way.
+        # Such modules may be left partially rewritten, and are never elaborated again.
+        # Any further attempt reports the original error.
+        failure = getattr(module, "_elaboration_failure", None)
+        if failure is not None:
+            raise failure
+
         # Check if this has already been elaborated by this pass/ class
         if module in self.CLASS_LEVEL_CACHE.done:
             return module
@@ -115,20 +122,28 @@ class ElabPass:
             return self.fail(msg)
         self.CLASS_LEVEL_CACHE.pending.add(module)
 
-        # Depth-first traverse instances, ensuring their targets are defined
-        for inst in module.instances.values():
-            self.elaborate_instance_base(inst)
-        for arr in module.instarrays.values():
-            self.elaborate_instance_base(arr)
-        for instbundle in module.instbundles.values():
-            self.elaborate_instance_base(instbundle)
+        try:
+            # Depth-first traverse instances, ensuring their targets are defined
+            for inst in module.instances.values():
+                self.elaborate_instance_base(inst)
+            for arr in module.instarrays.values():
+                self.elaborate_instance_base(arr)
+            for instbundle in module.instbundles.values():
+                self.elaborate_instance_base(instbundle)
 
-        # Traverse Bundle instances
-        for bundle in module.bundles.values():
-            self.elaborate_bundle_instance(bundle)
+            # Traverse Bundle instances
+            for bundle in module.bundles.values():
+                self.elaborate_bundle_instance(bundle)
 
-        # Run the pass-specific `elaborate_module`
-        result = self.elaborate_module(module)
+            # Run the pass-specific `elaborate_module`
+            result = self.elaborate_module(module)
+
+        except BaseException as e:
+            # Elaboration failed, in this module or something it instantiates.
+            # Leave nothing pending, and mark the module as having failed with this error.
+            self.CLASS_LEVEL_CACHE.pending.discard(module)
+            module._elaboration_failure = e
+            raise
 
         # Pop the hierarchy-stack and return it
         self.stack.pop()
